@@ -326,6 +326,125 @@ func wellFormed(v reflect.Value, depth int) string {
 	return ""
 }
 
+// c07EmbeddedErrors: a promoted member of an embedded pointer fails to decode (wrong kind,
+// truncated, bad literal). Whatever the error path tidies up, the embedded struct - fresh or put
+// there by the caller - stays a well-formed value, the members decoded before the error keep their
+// values, and nothing next to it is written.
+func c07EmbeddedErrors(c *rt.Ctx, sub0 int) {
+	type mkT struct {
+		name string
+		mk   func(prefill bool) any
+		docs []string
+		ok   func(v any, prefill bool) string
+	}
+	strOK := func(e *zoo.EPStrFirst, prefill bool, firstDecoded bool) string {
+		if e == nil {
+			return ""
+		}
+		want := ""
+		if prefill {
+			want = "caller"
+		}
+		if firstDecoded {
+			want = "decoded"
+		}
+		if e.Name != want {
+			return fmt.Sprintf("Name is %q (len %d), want %q", e.Name, len(e.Name), want)
+		}
+		return ""
+	}
+	cases := []mkT{
+		{"EPOutStr", func(p bool) any {
+			if p {
+				return &zoo.EPOutStr{EPStrFirst: &zoo.EPStrFirst{Name: "caller", Age: 3, Tags: []string{"t"}}, Z: 9}
+			}
+			return &zoo.EPOutStr{}
+		}, []string{`{"Age":"x"}`, `{"Name":"decoded","Age":"x","Z":1}`, `{"Name":"decoded","Tags":[1]}`, `{"Age":1,"Tags":"no"}`, `{"Age":tru}`, `{"Name":"decoded","Age":`},
+			func(v any, p bool) string { return "" }},
+		{"EPOutSlice", func(p bool) any {
+			if p {
+				return &zoo.EPOutSlice{A: 1, EPSliceFirst: &zoo.EPSliceFirst{Tags: []string{"caller", "x"}, Age: 2}}
+			}
+			return &zoo.EPOutSlice{}
+		}, []string{`{"Age":"x"}`, `{"A":2,"Age":[]}`, `{"Tags":["a"],"Age":"x"}`, `{"Age":nul}`},
+			func(v any, p bool) string { return "" }},
+		{"EPOutTiny", func(p bool) any {
+			o := &zoo.EPOutTiny{}
+			if p {
+				o.EPTiny = &zoo.EPTiny{Flag: 5}
+			}
+			for i := range o.G {
+				o.G[i] = 0xA5
+			}
+			return o
+		}, []string{`{"Flag":"x"}`, `{"Flag":1000}`, `{"Flag":[1]}`},
+			func(v any, p bool) string {
+				o := v.(*zoo.EPOutTiny)
+				for i, b := range o.G {
+					if b != 0xA5 {
+						return fmt.Sprintf("guard byte %d behind the embedded pointer is %#x", i, b)
+					}
+				}
+				return ""
+			}},
+	}
+	sub := sub0
+	for _, cs := range cases {
+		for _, doc := range cs.docs {
+			for _, prefill := range []bool{false, true} {
+				sub++
+				if !c.Cur(sub, fmt.Sprintf("shapes=core\nfailing promoted member: %s prefill=%v doc %s", cs.name, prefill, doc)) {
+					continue
+				}
+				for mode := 0; mode < 4; mode++ {
+					dst := cs.mk(prefill)
+					var err error
+					pan, msg, _ := rt.Guard(func() {
+						switch mode {
+						case 0:
+							err = gojson.Unmarshal([]byte(doc), dst)
+						case 1:
+							err = gojson.UnmarshalNoEscape([]byte(doc), dst)
+						case 2:
+							err = gojson.UnmarshalContext(context.Background(), []byte(doc), dst)
+						default:
+							err = gojson.NewDecoder(strings.NewReader(doc)).Decode(dst)
+						}
+					})
+					c.Eval(1)
+					entry := []string{"Unmarshal", "Unmarshal", "Unmarshal", "Decoder"}[mode]
+					if pan {
+						c.Obs("panics_seen_judged_by_C06", 1)
+						_ = msg
+						continue
+					}
+					if err == nil {
+						c.Obs("embedded_error_docs_accepted", 1)
+					}
+					runtime.GC()
+					bad := ""
+					pan, msg, _ = rt.Guard(func() { bad = wellFormed(reflect.ValueOf(dst).Elem(), 0) })
+					if pan {
+						bad = "walking the destination panicked: " + msg
+					}
+					if bad == "" {
+						bad = cs.ok(dst, prefill)
+					}
+					if o, isStr := dst.(*zoo.EPOutStr); bad == "" && isStr {
+						bad = strOK(o.EPStrFirst, prefill, strings.Contains(doc, `"decoded"`))
+					}
+					if bad != "" {
+						c.Violate(rt.Violation{Monitor: "well-formed", Entry: entry, Kind: "malformed-value", Ctx: "embedded-pointer-after-error:" + cs.name,
+							Detail: fmt.Sprintf("%s (prefill=%v) after the failed decode of %s: %s", cs.name, prefill, doc, bad), Sub: sub})
+					}
+				}
+				c.Obs("embedded_error_decodes", 4)
+				c.NonTrivial("emberr", cs.name, doc, fmt.Sprint(prefill))
+			}
+		}
+	}
+}
+
 // c07NullElems: the slice decoders build their result in pooled scratch arrays that still hold the
 // elements of earlier documents. A null element (and an element beyond the earlier length) must
 // come out as the zero value of its kind, not as what an earlier document left there: after a
@@ -1276,6 +1395,9 @@ func init() {
 				}
 				if k == 11 && c.Idx%64 == 7 {
 					c07NullElems(c, 960000)
+				}
+				if k == 11 && c.Idx%64 == 8 {
+					c07EmbeddedErrors(c, 970000)
 				}
 				if k == 0 {
 					c.Sample(map[string]any{"type": t.String(), "docs": len(docs), "example_doc": docs[len(docs)/2][0], "fields": descs})
